@@ -398,6 +398,9 @@ def spec_configs(tier: str) -> List[Any]:
     cfgs = lattice(tier)
     if tier == "quick":
         cfgs = [c for c in cfgs if not (getattr(c, "debug", False) or getattr(c, "smallest", False))]
+    else:
+        # the specification, not the search, is under test: the two main rule database families
+        cfgs = [c for c in cfgs if c.db in ("RuleDB", "Forest")]
     return cfgs
 
 
